@@ -139,6 +139,66 @@ Definition diff_csv (d : list dentry) : string :=
   csv_row ["diff-type"; "source"; "destination"; "dir1"; "dir2"; "workloads-diff-info"] ++
   fold_right (fun l acc => csv_row (split_semi l EmptyString) ++ acc) EmptyString (diff_lines diff_csv_key d).
 
+(* ---- list: dot (conns_formatter_dot.go, internal/dotformatting; without exposure) ----
+   fmt's %q is the string between double quotes on the alphabet the analysis produces.  The peers are
+   the analyzer's peersList (name, namespace, kind as the Peer interface gives them); a peer of an entry
+   that is not in that list (the ingress-controller pod) is external and labelled by its string.  Every
+   group of lines is sorted by the formatter, so only the SET of visited peers matters: it is taken here
+   as the sorted duplicate-free list of their strings. *)
+Record dpeer := mkDP { dp_str : string; dp_ext : bool; dp_ip : bool; dp_label : string; dp_ns : string }.
+
+Definition tab : string := String (ascii_of_nat 9) EmptyString.
+Definition qq (s : string) : string := """" ++ s ++ """".
+
+Fixpoint dot_lookup (ps : list dpeer) (s : string) : dpeer :=
+  match ps with
+  | [] => mkDP s true false s ""
+  | p :: t => if String.eqb (dp_str p) s then p else dot_lookup t s
+  end.
+
+Fixpoint dedup_adj (l : list string) : list string :=
+  match l with
+  | x :: ((y :: _) as t) => if String.eqb x y then dedup_adj t else x :: dedup_adj t
+  | _ => l
+  end.
+
+Definition dot_peer_line (p : dpeer) : string :=
+  let col := if dp_ip p then "red2" else "blue" in
+  tab ++ qq (dp_str p) ++ " [label=" ++ qq (if dp_ext p then dp_str p else dp_label p)
+      ++ " color=" ++ qq col ++ " fontcolor=" ++ qq col ++ "]".
+
+Definition dot_edge_line (r : row) : string :=
+  tab ++ qq (r_src r) ++ " -> " ++ qq (r_dst r) ++ " [label=" ++ qq (r_conn r)
+      ++ " color=" ++ qq "gold2" ++ " fontcolor=" ++ qq "darkgreen" ++ " weight="
+      ++ (if String.leb (r_src r) (r_dst r) then "0.5" else "1") ++ "]".
+
+Fixpoint dash_to_underscore (s : string) : string :=
+  match s with
+  | EmptyString => EmptyString
+  | String c t => String (if Ascii.eqb c "-" then "_"%char else c) (dash_to_underscore t)
+  end.
+
+Definition dot_ns_group (visited : list dpeer) (ns : string) : list string :=
+  [tab ++ "subgraph " ++ qq ("cluster_" ++ dash_to_underscore ns) ++ " {";
+   tab ++ tab ++ "color=" ++ qq "black"; tab ++ tab ++ "fontcolor=" ++ qq "black"]
+  ++ strsort (map (fun p => tab ++ dot_peer_line p)
+                  (filter (fun p => negb (dp_ext p) && String.eqb (dp_ns p) ns) visited))
+  ++ [tab ++ tab ++ "label=" ++ qq ns; tab ++ "}"].
+
+Definition dot_strs (es : list rentry) (ps : list dpeer) : list string :=
+  (flat_map (fun e => [rpeer_str (re_src e); rpeer_str (re_dst e)]) es
+   ++ map dp_str (filter (fun p => negb (dp_ip p)) ps))%list.
+
+Definition dot_render (visited : list dpeer) (edges : list string) : string :=
+  let nss := dedup_adj (strsort (map dp_ns (filter (fun p => negb (dp_ext p)) visited))) in
+  join nl (["digraph {"] ++ flat_map (dot_ns_group visited) nss
+           ++ strsort (map dot_peer_line (filter dp_ext visited))
+           ++ edges ++ ["}"])%list.
+
+Definition list_dot (es : list rentry) (ps : list dpeer) : string :=
+  dot_render (map (dot_lookup ps) (dedup_adj (strsort (dot_strs es ps))))
+             (strsort (map (fun e => dot_edge_line (row_of e)) es)).
+
 (* ---------- correspondence cases ---------- *)
 Record fmt_case := mkFmt { fm_id : nat; fm_entries : list rentry;
                            fm_txt : string; fm_md : string; fm_csv : string; fm_json : string }.
@@ -149,6 +209,10 @@ Definition fmt_mismatches (cs : list fmt_case) : list (nat * nat) :=
     (if String.eqb (fm_md c) (list_md (fm_entries c)) then [] else [(fm_id c, 2%nat)]) ++
     (if String.eqb (fm_csv c) (list_csv (fm_entries c)) then [] else [(fm_id c, 3%nat)]) ++
     (if String.eqb (fm_json c) (list_json (fm_entries c)) then [] else [(fm_id c, 4%nat)]))%list) cs.
+
+Record dot_case := mkDot { dc_id : nat; dc_entries : list rentry; dc_peers : list dpeer; dc_dot : string }.
+Definition dot_mismatches (cs : list dot_case) : list (nat * nat) :=
+  flat_map (fun c => if String.eqb (dc_dot c) (list_dot (dc_entries c) (dc_peers c)) then [] else [(dc_id c, 6%nat)]) cs.
 
 Record dfmt_case := mkDFmt { df_id : nat; df_diff : list dentry; df_txt : string; df_md : string; df_csv : string }.
 Definition dfmt_mismatches (cs : list dfmt_case) : list (nat * nat) :=
